@@ -41,7 +41,7 @@ def rand_json(rng, depth=0):
         return node("a", "", [v for v, _ in kids]), "[" + sep.join(t for _, t in kids) + "]"
     if k == 7:
         n = rng.randrange(4)
-        keys = rng.sample(KEYS, n)
+        keys = rng.sample([x for x in KEYS if "%" not in x], min(n, len([x for x in KEYS if "%" not in x])))
         ms, parts = [], []
         for key in keys:
             v, t = rand_json(rng, depth + 1)
@@ -59,7 +59,7 @@ def rand_json(rng, depth=0):
     if k == 3:
         s = rng.choice(FLTS[:4])
         return node("f", s), s
-    s = rng.choice(STRS)
+    s = rng.choice([x for x in STRS if "%" not in x])
     return node("s", s), json.dumps(s)
 
 
@@ -114,7 +114,18 @@ def rand_op(rng, nd, nr):
     return o
 
 
-def write_feed(path_, seed, candidates, nd=2, nr=3, run_len=60):
+def set_profile(profile):
+    """'strings': string-heavy alphabets for C14 (keys that are prefixes of one another, NUL inside,
+    bytes >= 0x80, numeric-looking strings)."""
+    global KEYS, STRS
+    if profile == "strings":
+        KEYS = ["a", "ab", "a%00b", ""]
+        STRS = ["a", "ab", "", "42", "1.5", "-3e2", "a%00b", "%80%FF", "a", "42"]
+
+
+def write_feed(path_, seed, candidates, nd=2, nr=3, run_len=60, profile=None):
+    if profile:
+        set_profile(profile)
     rng = random.Random(seed)
     n = 0
     with open(path_, "w") as f:
